@@ -52,7 +52,7 @@ class ClientRegistrationEndpoint:
         return 201, body, default_json_headers
 
     def extract_client_metadata(self, request):
-        if not request.data:
+        if not request.data or not isinstance(request.data, dict):
             raise InvalidRequestError()
 
         json_data = request.data.copy()
